@@ -89,6 +89,60 @@ theorem final_tempRename (o n : Bytes) (fault : Fault) :
     | j + 10 =>
       simp [finalRun, progTempRename, enabled, faultAt, execOp, execOk, writeBytes, upd, startRun, initFS, afterKill]
 
+/-- temp-file program under a process kill: the store path holds the old or the new document -/
+theorem kill_tempRename (o n : Bytes) (fault : Fault) :
+    ∀ fs ∈ trace n fault progTempRename 0 (startRun (initFS o)), afterKill fs = some o ∨ afterKill fs = some n := by
+  intro fs hmem
+  match fault with
+  | none =>
+    simp [trace, progTempRename, enabled, faultAt, execOp, execOk, interm, writeBytes, upd, startRun, initFS] at hmem
+    rcases hmem with rfl | rfl | ⟨a, _, rfl⟩ | rfl | rfl | rfl <;> simp [afterKill]
+  | some (j, k) =>
+    match j with
+    | 0 | 1 | 2 | 3 | 4 | 5 | 6 | 7 | 8 | 9 =>
+      simp [trace, progTempRename, enabled, faultAt, execOp, execOk, execFail, interm, writeBytes, upd, startRun, initFS] at hmem
+      rcases hmem with rfl | rfl | ⟨a, _, rfl⟩ | rfl | rfl | rfl | rfl <;> simp [afterKill]
+    | j + 10 =>
+      simp [trace, progTempRename, enabled, faultAt, execOp, execOk, interm, writeBytes, upd, startRun, initFS] at hmem
+      rcases hmem with rfl | rfl | ⟨a, _, rfl⟩ | rfl | rfl | rfl <;> simp [afterKill]
+
+/-! ### the truncate-then-write program (`os.WriteFile`) -/
+
+/-- right after the `open(O_TRUNC)` the store path names an empty file -/
+theorem writeFile_passes_empty (o n : Bytes) :
+    ∃ fs ∈ trace n none progWriteFile 0 (startRun (initFS o)), afterKill fs = some [] ∧ PostCrash fs (some []) := by
+  refine ⟨{ inodes := [⟨[], false⟩], target := some 0, thist := [some 0], tmps := [], next := 0 }, ?_, ?_, ?_⟩
+  · simp [trace, progWriteFile, enabled, faultAt, execOp, execOk, interm, writeBytes, upd, startRun, initFS]
+  · simp [afterKill]
+  · exact ⟨some 0, by simp, ⟨[], false⟩, by simp, [], rfl, by simp⟩
+
+/-- every byte count: after `j` bytes of the write the store path names the first `j` bytes of the new document -/
+theorem writeFile_passes_prefix (o n : Bytes) (j : Nat) (hj : j ≤ n.length) :
+    ∃ fs ∈ trace n none progWriteFile 0 (startRun (initFS o)), afterKill fs = some (n.take j) := by
+  refine ⟨{ inodes := [⟨n.take j, false⟩], target := some 0, thist := [some 0], tmps := [], next := 0 }, ?_, ?_⟩
+  · simp [trace, progWriteFile, enabled, faultAt, execOp, execOk, interm, writeBytes, upd, startRun, initFS]
+    exact Or.inr (Or.inl ⟨j, by omega, rfl⟩)
+  · simp [afterKill]
+
+/-- what still holds for the truncate-then-write program under a process kill or a failing call: the
+store path holds the old document or a prefix of the new one (never anything else) -/
+theorem writeFile_kill_prefix (o n : Bytes) (fault : Fault) :
+    ∀ fs ∈ trace n fault progWriteFile 0 (startRun (initFS o)),
+      afterKill fs = some o ∨ ∃ p, p <+: n ∧ afterKill fs = some p := by
+  intro fs hmem
+  match fault with
+  | none =>
+    simp [trace, progWriteFile, enabled, faultAt, execOp, execOk, interm, writeBytes, upd, startRun, initFS] at hmem
+    rcases hmem with rfl | rfl | ⟨a, _, rfl⟩ | rfl | rfl | rfl <;> simp [afterKill, List.take_prefix]
+  | some (j, k) =>
+    match j with
+    | 0 | 1 | 2 | 3 | 4 =>
+      simp [trace, progWriteFile, enabled, faultAt, execOp, execOk, execFail, interm, writeBytes, upd, startRun, initFS] at hmem
+      rcases hmem with rfl | rfl | ⟨a, _, rfl⟩ | rfl | rfl | rfl <;> simp [afterKill, List.take_prefix]
+    | j + 5 =>
+      simp [trace, progWriteFile, enabled, faultAt, execOp, execOk, interm, writeBytes, upd, startRun, initFS] at hmem
+      rcases hmem with rfl | rfl | ⟨a, _, rfl⟩ | rfl | rfl | rfl <;> simp [afterKill, List.take_prefix]
+
 /-- `load` of a document -/
 theorem load_ser {U : Type} (C : Codec U) (hC : C.Lawful) (u : U) : load C (some (C.ser u)) = some u := by
   have h := hC.ser_ne_nil u
